@@ -410,6 +410,16 @@ def b_tasks(tier):
   n = 24 if tier == 'quick' else 64
   for k in range(n):
     chunks.append(dict(part='b', shapes=[list(s) for s in shapes[k::n]], blocks=blocks))
+  # tearfree blockify needs larger shapes to have several blocks on two axes with axes in between:
+  # every admissible shape of rank <= 4 with dims in {2,3,4,6} (quick: <= 150 elements)
+  tf = []
+  for r in (2, 3, 4):
+    for sh in itertools.product((2, 3, 4, 6), repeat=r):
+      if math.prod(sh) <= (150 if tier == 'quick' else 600):
+        tf.append(sh)
+  m = 8 if tier == 'quick' else 16
+  for k in range(m):
+    chunks.append(dict(part='b', only='blockify', shapes=[list(s) for s in tf[k::m]], blocks=[2, 3] if tier == 'quick' else [2, 3, 4, 6]))
   return chunks
 
 
@@ -462,11 +472,12 @@ def b_work(t):
     if r != 'unsat':
       fails.append((name, f'{len(bad)} entries differ ({r})', replay))
 
+  only = t.get('only')
   for shape in [tuple(s) for s in t['shapes']]:
     x = distinct_inputs(shape)
     for b in t['blocks']:
       # --- BlockPartitioner round trip and block contents
-      if len(shape) >= 1:
+      if len(shape) >= 1 and not only:
         part = ds.BlockPartitioner(Shape(shape), b)
         blocks = eval_fn(lambda a: part.partition(a), x)
         back = eval_fn(lambda *bl: part.merge_partitions(list(bl)), *blocks)
@@ -481,7 +492,7 @@ def b_work(t):
             if any(s > b for s in np.shape(g_)) and b > 0 and any(0 < b < d for d in shape) and False:
               pass
       # --- identity preconditioning
-      for ptype in (ds.PreconditionerType.ALL, ds.PreconditionerType.INPUT, ds.PreconditionerType.OUTPUT):
+      for ptype in (() if only else (ds.PreconditionerType.ALL, ds.PreconditionerType.INPUT, ds.PreconditionerType.OUTPUT)):
         for merge in (False, True):
           if len(shape) == 0 and merge:
             continue
@@ -495,7 +506,7 @@ def b_work(t):
             fails.append((f'identity preconditioning {shape} block {b} {ptype.name} merge={merge}', f'raises {type(ex).__name__}: {ex}',
                           dict(fn='identity', shape=shape, block=b, ptype=ptype.name, merge=merge)))
       # --- reshaper merge / unmerge (block sizes >= 2 or 0)
-      for bs in ([0] + ([b] if b >= 2 else [])):
+      for bs in ([] if only else ([0] + ([b] if b >= 2 else []))):
         for mg in (2, 4):
           opt = reshaper.Options(merge_dims=mg, block_size=bs)
           p = {'w': jnp.zeros(shape)}
